@@ -1,0 +1,325 @@
+//go:build verif
+// +build verif
+
+package linker
+
+// Observation hook for the /verif correspondence harness (build tag "verif" only): reports what
+// computeCrossChunkDependencies read (chunks, live parts with their symbol uses and top-level declarations,
+// the symbols involved, ImportsToBind, the entry points' resolved exports) and what it produced
+// (Symbol.ChunkIndex, importsFromOtherChunks, exportsToOtherChunks, the cross-chunk import/export statements,
+// crossChunkImports), plus the text of generateEntryPointTailJS printed with a renamer that spells every
+// symbol as its ref.
+
+import (
+	"fmt"
+	"sort"
+
+	"github.com/evanw/esbuild/internal/ast"
+	"github.com/evanw/esbuild/internal/graph"
+	"github.com/evanw/esbuild/internal/js_ast"
+)
+
+type VerifCCSym struct {
+	Ref        [2]uint32
+	Unbound    bool
+	Missing    bool
+	HasNs      bool
+	Ns         [2]uint32
+	Name       string
+	HasLink    bool
+	Link       [2]uint32
+	ChunkIndex int // -1 = invalid
+}
+
+type VerifCCPart struct {
+	Live     bool
+	Declared [][2]uint32 // DeclaredSymbols with IsTopLevel
+	Uses     [][2]uint32 // keys of SymbolUses, sorted
+	Dyn      []int       // source indices of the entry points whose chunk a rewritten import() record names
+}
+
+type VerifCCExport struct {
+	Alias string
+	Src   uint32
+	Ref   [2]uint32
+}
+
+type VerifCCFile struct {
+	Src          uint32
+	Stable       uint32
+	IsJS         bool
+	Wrap         int // 0 none, 1 cjs, 2 esm
+	WrapperRef   [2]uint32
+	ExportsRef   [2]uint32
+	ForceExports bool
+	EntryChunk   uint32
+	Binds        [][2][2]uint32 // ImportsToBind: import ref -> target ref, sorted
+	Exports      []VerifCCExport
+	Copies       [][2]uint32
+	Parts        []VerifCCPart
+}
+
+type VerifCCItem struct {
+	Ref   [2]uint32
+	Alias string
+}
+
+type VerifCCImport struct {
+	Chunk int
+	Items []VerifCCItem
+}
+
+type VerifCCChunk struct {
+	IsJS     bool
+	Files    []uint32
+	IsEntry  bool
+	EntrySrc uint32
+	EntryBit uint
+	Bits     []uint
+	// results
+	ImportsFrom  []VerifCCImport // importsFromOtherChunks, keys sorted, items in stored order
+	ExportsMap   []VerifCCItem   // exportsToOtherChunks sorted by ref
+	ExportStmt   []VerifCCItem   // items of crossChunkSuffixStmts in order
+	Prefix       []VerifCCImport // crossChunkPrefixStmts in order (chunk of the import record, items)
+	CrossImports [][2]int        // (0 = static / 1 = dynamic, chunk index)
+	Tail         string
+}
+
+type VerifCCDump struct {
+	Minify     bool
+	NumEntries int
+	Syms       []VerifCCSym
+	Files      []VerifCCFile
+	Chunks     []VerifCCChunk
+}
+
+var verifCCObserver func(VerifCCDump)
+
+// VerifSetCrossChunkObserver installs (or with nil removes) the observer.
+func VerifSetCrossChunkObserver(f func(VerifCCDump)) {
+	verifShakeMutex.Lock()
+	verifCCObserver = f
+	verifShakeMutex.Unlock()
+}
+
+type verifRefRenamer struct{}
+
+func (verifRefRenamer) NameForSymbol(ref ast.Ref) string {
+	return fmt.Sprintf("__vref_%d_%d__", ref.SourceIndex, ref.InnerIndex)
+}
+
+func verifRef(r ast.Ref) [2]uint32 { return [2]uint32{r.SourceIndex, r.InnerIndex} }
+
+func verifRefLess(a, b [2]uint32) bool { return a[0] < b[0] || (a[0] == b[0] && a[1] < b[1]) }
+
+func verifObserveCrossChunk(c *linkerContext) {
+	verifShakeMutex.Lock()
+	obs := verifCCObserver
+	verifShakeMutex.Unlock()
+	if obs == nil || !c.options.CodeSplitting {
+		return
+	}
+	d := VerifCCDump{Minify: c.options.MinifyIdentifiers, NumEntries: len(c.graph.EntryPoints())}
+	need := map[ast.Ref]bool{}
+	keyToChunk := map[string]int{}
+	for i := range c.chunks {
+		keyToChunk[c.chunks[i].uniqueKey] = i
+	}
+	inSomeChunk := map[uint32]bool{}
+	for i := range c.chunks {
+		for s := range c.chunks[i].filesWithPartsInChunk {
+			inSomeChunk[s] = true
+		}
+	}
+
+	// files
+	for _, sourceIndex := range c.graph.ReachableFiles {
+		file := &c.graph.Files[sourceIndex]
+		f := VerifCCFile{Src: sourceIndex, Stable: c.graph.StableSourceIndices[sourceIndex], EntryChunk: file.EntryPointChunkIndex}
+		repr, ok := file.InputFile.Repr.(*graph.JSRepr)
+		if !ok {
+			d.Files = append(d.Files, f)
+			continue
+		}
+		f.IsJS = true
+		switch repr.Meta.Wrap {
+		case graph.WrapCJS:
+			f.Wrap = 1
+		case graph.WrapESM:
+			f.Wrap = 2
+		}
+		f.WrapperRef = verifRef(repr.AST.WrapperRef)
+		f.ExportsRef = verifRef(repr.AST.ExportsRef)
+		f.ForceExports = repr.Meta.ForceIncludeExportsForEntryPoint
+		for k, v := range repr.Meta.ImportsToBind {
+			f.Binds = append(f.Binds, [2][2]uint32{verifRef(k), verifRef(v.Ref)})
+			need[k] = true
+			need[v.Ref] = true
+		}
+		sort.Slice(f.Binds, func(i, j int) bool { return verifRefLess(f.Binds[i][0], f.Binds[j][0]) })
+		if file.IsEntryPoint() {
+			for _, alias := range repr.Meta.SortedAndFilteredExportAliases {
+				export := repr.Meta.ResolvedExports[alias]
+				f.Exports = append(f.Exports, VerifCCExport{Alias: alias, Src: export.SourceIndex, Ref: verifRef(export.Ref)})
+				need[export.Ref] = true
+			}
+			for _, r := range repr.Meta.CJSExportCopies {
+				f.Copies = append(f.Copies, verifRef(r))
+			}
+			if repr.AST.WrapperRef != ast.InvalidRef {
+				need[repr.AST.WrapperRef] = true
+			}
+			if repr.AST.ExportsRef != ast.InvalidRef {
+				need[repr.AST.ExportsRef] = true
+			}
+		}
+		for _, part := range repr.AST.Parts {
+			p := VerifCCPart{Live: part.IsLive}
+			// dead parts of files outside every chunk are never looked at: keep only the flag
+			if part.IsLive || inSomeChunk[sourceIndex] && len(repr.AST.Parts) < 64 {
+				for _, declared := range part.DeclaredSymbols {
+					if declared.IsTopLevel {
+						p.Declared = append(p.Declared, verifRef(declared.Ref))
+						need[declared.Ref] = true
+					}
+				}
+				for ref := range part.SymbolUses {
+					p.Uses = append(p.Uses, verifRef(ref))
+					need[ref] = true
+				}
+				sort.Slice(p.Uses, func(i, j int) bool { return verifRefLess(p.Uses[i], p.Uses[j]) })
+				for _, idx := range part.ImportRecordIndices {
+					record := &repr.AST.ImportRecords[idx]
+					if record.Kind == ast.ImportDynamic && !record.SourceIndex.IsValid() && record.Flags.Has(ast.ContainsUniqueKey) {
+						if ci, ok := keyToChunk[record.Path.Text]; ok && c.chunks[ci].isEntryPoint {
+							p.Dyn = append(p.Dyn, int(c.chunks[ci].sourceIndex))
+						}
+					}
+				}
+			}
+			f.Parts = append(f.Parts, p)
+		}
+		d.Files = append(d.Files, f)
+	}
+
+	// chunks
+	for i := range c.chunks {
+		chunk := &c.chunks[i]
+		ch := VerifCCChunk{IsEntry: chunk.isEntryPoint, EntrySrc: chunk.sourceIndex, EntryBit: chunk.entryPointBit}
+		for s := range chunk.filesWithPartsInChunk {
+			ch.Files = append(ch.Files, s)
+		}
+		sort.Slice(ch.Files, func(a, b int) bool { return ch.Files[a] < ch.Files[b] })
+		for b := 0; b < d.NumEntries; b++ {
+			if chunk.entryBits.HasBit(uint(b)) {
+				ch.Bits = append(ch.Bits, uint(b))
+			}
+		}
+		for _, ci := range chunk.crossChunkImports {
+			k := 0
+			if ci.importKind == ast.ImportDynamic {
+				k = 1
+			} else if ci.importKind != ast.ImportStmt {
+				k = 2
+			}
+			ch.CrossImports = append(ch.CrossImports, [2]int{k, int(ci.chunkIndex)})
+		}
+		if chunkRepr, ok := chunk.chunkRepr.(*chunkReprJS); ok {
+			ch.IsJS = true
+			keys := []int{}
+			for k := range chunkRepr.importsFromOtherChunks {
+				keys = append(keys, int(k))
+			}
+			sort.Ints(keys)
+			for _, k := range keys {
+				im := VerifCCImport{Chunk: k}
+				for _, item := range chunkRepr.importsFromOtherChunks[uint32(k)] {
+					im.Items = append(im.Items, VerifCCItem{Ref: verifRef(item.ref), Alias: item.exportAlias})
+					need[item.ref] = true
+				}
+				ch.ImportsFrom = append(ch.ImportsFrom, im)
+			}
+			for ref, alias := range chunkRepr.exportsToOtherChunks {
+				ch.ExportsMap = append(ch.ExportsMap, VerifCCItem{Ref: verifRef(ref), Alias: alias})
+				need[ref] = true
+			}
+			sort.Slice(ch.ExportsMap, func(a, b int) bool { return verifRefLess(ch.ExportsMap[a].Ref, ch.ExportsMap[b].Ref) })
+			for _, stmt := range chunkRepr.crossChunkSuffixStmts {
+				if s, ok := stmt.Data.(*js_ast.SExportClause); ok {
+					for _, item := range s.Items {
+						ch.ExportStmt = append(ch.ExportStmt, VerifCCItem{Ref: verifRef(item.Name.Ref), Alias: item.Alias})
+					}
+				} else {
+					ch.ExportStmt = append(ch.ExportStmt, VerifCCItem{Alias: "?unexpected-statement"})
+				}
+			}
+			for _, stmt := range chunkRepr.crossChunkPrefixStmts {
+				if s, ok := stmt.Data.(*js_ast.SImport); ok && int(s.ImportRecordIndex) < len(chunk.crossChunkImports) {
+					im := VerifCCImport{Chunk: int(chunk.crossChunkImports[s.ImportRecordIndex].chunkIndex)}
+					if s.Items != nil {
+						for _, item := range *s.Items {
+							im.Items = append(im.Items, VerifCCItem{Ref: verifRef(item.Name.Ref), Alias: item.Alias})
+						}
+					}
+					ch.Prefix = append(ch.Prefix, im)
+				} else {
+					ch.Prefix = append(ch.Prefix, VerifCCImport{Chunk: -1})
+				}
+			}
+		}
+		d.Chunks = append(d.Chunks, ch)
+	}
+
+	// symbols (one level of namespace aliases is enough: the routine never looks further)
+	// and the targets of links, so that the harness can see whether a used symbol was merged into another one
+	for changed := true; changed; {
+		changed = false
+		for ref := range need {
+			if ref == ast.InvalidRef {
+				continue
+			}
+			sym := c.graph.Symbols.Get(ref)
+			if ns := sym.NamespaceAlias; ns != nil && !need[ns.NamespaceRef] {
+				need[ns.NamespaceRef] = true
+				changed = true
+			}
+			if sym.Link != ast.InvalidRef && !need[sym.Link] {
+				need[sym.Link] = true
+				changed = true
+			}
+		}
+	}
+	for ref := range need {
+		if ref == ast.InvalidRef {
+			continue
+		}
+		sym := c.graph.Symbols.Get(ref)
+		s := VerifCCSym{Ref: verifRef(ref), Unbound: sym.Kind == ast.SymbolUnbound, Missing: sym.ImportItemStatus == ast.ImportItemMissing,
+			Name: sym.OriginalName, ChunkIndex: -1}
+		if sym.NamespaceAlias != nil {
+			s.HasNs = true
+			s.Ns = verifRef(sym.NamespaceAlias.NamespaceRef)
+		}
+		if sym.Link != ast.InvalidRef {
+			s.HasLink = true
+			s.Link = verifRef(sym.Link)
+		}
+		if sym.ChunkIndex.IsValid() {
+			s.ChunkIndex = int(sym.ChunkIndex.GetIndex())
+		}
+		d.Syms = append(d.Syms, s)
+	}
+	sort.Slice(d.Syms, func(i, j int) bool { return verifRefLess(d.Syms[i].Ref, d.Syms[j].Ref) })
+
+	// entry point tails (after the symbols: the printer compresses links)
+	for i := range c.chunks {
+		chunk := &c.chunks[i]
+		if _, ok := chunk.chunkRepr.(*chunkReprJS); ok && chunk.isEntryPoint {
+			if _, ok := c.graph.Files[chunk.sourceIndex].InputFile.Repr.(*graph.JSRepr); ok {
+				res := c.generateEntryPointTailJS(verifRefRenamer{}, ast.InvalidRef, ast.InvalidRef, chunk.sourceIndex)
+				d.Chunks[i].Tail = string(res.PrintResult.JS)
+			}
+		}
+	}
+	obs(d)
+}
